@@ -144,6 +144,19 @@ void h_rem_ptr(void) {
   ASSERT(cv_destructs == (old_has_p || pending) && cv_deallocs == cv_destructs && (!cv_destructs || cv_last_destruct == in_p) && cv_order_bad == 0, "[C06] an explicitly deleted object is finalised exactly once and then released exactly once - also one that a sweep in progress has unlinked but not finalised yet; nothing else is");
   ASSERT(FREELIST[0] != in_p && FREELIST[1] != in_p, "[C06] a deleted object is struck from the pending list of a sweep in progress");
 }
+/* the registry shrunk to nothing by the very sweep that is still finalising its pending list (thread teardown): del of a pending object */
+void h_rem_ptr_empty(void) {
+  gc = (struct GC*)header_init(&GO.h, GC, AllocHeap); cv_gc = gc;
+  { struct GC any_state; *gc = any_state; }
+  gc->entries = NULL; gc->nslots = 0; gc->nitems = 0; gc->running = true;
+  unsigned k = nondet_unsigned(); __CPROVER_assume(k >= 2 && k < 64); in_p = CELL(k);
+  gc->freelist = FREELIST; gc->freenum = 2; FREELIST[0] = nondet_bool() ? in_p : CELL(1); FREELIST[1] = FREELIST[0] == in_p ? NULL : (nondet_bool() ? in_p : NULL);
+  int pending = (FREELIST[0] == in_p) + (FREELIST[1] == in_p);
+  GC_Rem_Ptr(gc, in_p);
+  ASSERT(cv_destructs == pending && cv_deallocs == pending && (!pending || cv_last_destruct == in_p) && cv_order_bad == 0, "[C06] del of an object pending in a sweep finalises and releases it exactly once, also when that sweep has already shrunk the registry to nothing");
+  ASSERT(FREELIST[0] != in_p && FREELIST[1] != in_p && gc->nitems == 0, "[C06] a deleted object is struck from the pending list of a sweep in progress");
+  COVER(pending == 1, "pending object deleted"); COVER(pending == 0, "nothing pending");
+}
 /* ---- C01: marking ---- */
 void h_mark_item(void) {
   arbitrary_gc();        /* MARKS=1 */
